@@ -48,6 +48,7 @@ DEFAULT_FEATURES = {
     "string_field_direct": False,   # a struct's string field used directly as a let/set value: nanoc's evaluator frees it (garbage / crash)
     "aggregate_string_alias": False,  # a string variable stored (uncopied) into a struct/union/tuple/array field and reassigned later: nanoc's evaluator leaves the field dangling
     "block_shadow_selfref": False,  # inner `let x = f(x)` shadowing an outer x: natively the initialiser reads the new, uninitialised x
+    "block_shadow_mut_mismatch": False,  # inner immutable `let x` shadowing a mutable outer x: the type checker then rejects `set x` after the block
     "print_indirect_call": False,  # (println (f args)) through a function value prints <unknown> natively
 }
 
@@ -767,6 +768,10 @@ class Gen:
         if e is None:
             return None
         mut = self.chance(0.45) and not isinstance(t, tuple)
+        if shadowed is not None and not self.f["block_shadow_mut_mismatch"]:
+            # the type checker does not end the inner scope: an immutable inner `let x` makes a later `set x` of the
+            # mutable outer x fail ("Cannot assign to immutable variable")
+            mut = bool(dict(sc.vars())[shadowed]["mut"])
         known = len(e[2]) if e[0] == "arr" else None
         if isinstance(t, tuple) and t[0] == "array" and e[0] == "arr" and self.f["array_mut"] and self.chance(0.4):
             mut = True
